@@ -325,6 +325,10 @@ type vC09H struct {
 	removed                  []vC09Sym
 	initCfg                  []vC09Sym
 	idx                      int
+	twins                    int       // colliding-tag pairs still to hand out
+	twinQ                    []vC09Sym // second halves of handed-out pairs
+	sticky                   vC09Faults
+	stickyLeft               int
 	windowSeen               map[string]bool
 	tRun, tNew               time.Duration
 	nRun, nNew, nDrop        int
@@ -991,7 +995,24 @@ func (h *vC09H) pickAdvance() int64 {
 	return ch[r.Intn(len(ch))]
 }
 
+// fresh hands out unused keys. In "twin" histories some of them come in pairs with the SAME key tag
+// (found by search), so that colliding tags can turn up in any role: anchor, pending key, revoked
+// key, key published while a marker holds the tag, injected key.
 func (h *vC09H) fresh(n *int) vC09Sym {
+	if len(h.twinQ) > 0 && h.rng.Intn(2) == 0 {
+		k := h.twinQ[0]
+		h.twinQ = h.twinQ[1:]
+		return k
+	}
+	if h.twins > 0 && h.rng.Intn(2) == 0 {
+		h.twins--
+		pr := h.pool.collide[h.rng.Intn(len(h.pool.collide))]
+		if h.rng.Intn(2) == 0 {
+			pr[0], pr[1] = pr[1], pr[0]
+		}
+		h.twinQ = append(h.twinQ, vC09Sym{pr[1], 257})
+		return vC09Sym{pr[0], 257}
+	}
 	k := vC09Sym{h.pool.normal[*n%len(h.pool.normal)], 257}
 	*n++
 	return k
@@ -1045,6 +1066,17 @@ func (h *vC09H) pickConfig(next *int) []vC09Sym {
 func (h *vC09H) pickFaults() vC09Faults {
 	r := h.rng
 	var fl vC09Faults
+	// storage trouble tends to last: a write fault is sometimes kept for the following runs
+	if h.stickyLeft > 0 {
+		h.stickyLeft--
+		return h.sticky
+	}
+	defer func() {
+		if (fl.twrite || fl.swrite) && r.Intn(2) == 0 {
+			h.sticky = vC09Faults{twrite: fl.twrite, swrite: fl.swrite}
+			h.stickyLeft = 1 + r.Intn(2)
+		}
+	}()
 	switch x := r.Intn(100); {
 	case x < 70:
 	case x < 76:
@@ -1067,7 +1099,31 @@ func (h *vC09H) pickFetch(next *int) vC09Fetch {
 	r := h.rng
 	fe := h.honest()
 	switch x := r.Intn(100); {
-	case x < 62:
+	case x < 50:
+	case x < 56: // each signature independently broken: partially signed sets
+		for i := range fe.sigs {
+			if r.Intn(2) == 0 {
+				fe.sigs[i].bad = true
+			}
+		}
+	case x < 60: // partially signed set that also carries a key nobody vouches for
+		for i := range fe.sigs {
+			if r.Intn(2) == 0 {
+				fe.sigs[i].bad = true
+			}
+		}
+		fe.keys = append(fe.keys, h.fresh(next))
+		if r.Intn(2) == 0 && len(fe.keys) > 2 {
+			fe.keys = append(fe.keys[:1], fe.keys[2:]...) // and lacks one that was there
+		}
+	case x < 62: // a signature made by one key, labelled with the key tag of another published key
+		if len(fe.sigs) >= 2 {
+			i, j := r.Intn(len(fe.sigs)), r.Intn(len(fe.sigs))
+			if i != j {
+				fe.sigs[i].tagSet = true
+				fe.sigs[i].tag = h.pool.tag(fe.sigs[j].signer)
+			}
+		}
 	case x < 68: // only some of the keys sign
 		var s []vC09Sig
 		for _, g := range fe.sigs {
@@ -1162,6 +1218,12 @@ func (h *vC09H) maybeCrash(next *int) {
 func (h *vC09H) scenario(kind string) {
 	r := h.rng
 	next := r.Intn(len(h.pool.normal))
+	switch kind {
+	case "random", "rollover", "revfault", "missing", "pendabort", "forged":
+		if r.Intn(4) == 0 {
+			h.twins = 1 + r.Intn(2)
+		}
+	}
 	switch kind {
 	case "random":
 		a := h.fresh(&next)
@@ -1349,10 +1411,32 @@ func (h *vC09H) scenario(kind string) {
 		h.revoke(a)
 		fl := vC09Faults{twrite: r.Intn(2) == 0, swrite: r.Intn(2) == 0}
 		fe := h.honest()
-		if r.Intn(3) == 0 {
+		switch r.Intn(5) {
+		case 0:
 			fe = h.signedBy(vC09Rev(a)) // authenticated only by the revoked key
+		case 1:
+			// valid only under the revoked form; the co-signatures are there but do not verify,
+			// a new key rides along and an anchor is left out
+			for i := range fe.sigs {
+				if fe.sigs[i].signer != vC09Rev(a) {
+					fe.sigs[i].bad = true
+				}
+			}
+			fe.keys = append(fe.keys, h.fresh(&next))
+			if r.Intn(2) == 0 {
+				fe.keys = fe.keys[:0]
+				for _, k := range h.pub {
+					if k != b {
+						fe.keys = append(fe.keys, k)
+					}
+				}
+				fe.keys = append(fe.keys, h.fresh(&next))
+			}
 		}
 		h.run(fe, fl)
+		if (fl.twrite || fl.swrite) && r.Intn(2) == 0 {
+			h.sticky, h.stickyLeft = fl, 1+r.Intn(2) // the storage fault outlasts the run
+		}
 		if len(h.renames) > 0 && r.Intn(2) == 0 {
 			h.rollback(r.Intn(len(h.renames)+1), []vC09Sym{a, b})
 		} else if r.Intn(2) == 0 {
@@ -1369,12 +1453,18 @@ func (h *vC09H) scenario(kind string) {
 				h.restart([]vC09Sym{a, b})
 			case 3:
 				h.advance(h.pickAdvance())
+			case 4:
+				h.publish(h.fresh(&next)) // a new KSK appears (in twin histories: possibly with a tag already in use)
 			}
 			h.run(h.pickFetch(&next), h.pickFaults())
 			h.maybeCrash(&next)
 		}
 		h.restart([]vC09Sym{a, b})
 		h.run(h.honest(), vC09Faults{})
+		if r.Intn(2) == 0 {
+			h.advance(h.pickAdvance())
+			h.run(h.honest(), vC09Faults{})
+		}
 
 	case "cfgboth":
 		// configuration lists a key and its revoked form (correspondence only)
@@ -1478,6 +1568,62 @@ func (h *vC09H) scenario(kind string) {
 		}
 		h.run(h.honest(), vC09Faults{})
 
+	case "twinrev":
+		// a new KSK whose key tag is already in use (by the anchor being revoked, or by its revoked
+		// form) is published before, during or after the revocation, under lasting storage faults
+		var kk, n vC09Sym
+		if r.Intn(3) == 0 {
+			pr := h.pool.revcol[r.Intn(len(h.pool.revcol))] // tag(n) == tag(revoked form of kk)
+			kk, n = vC09Sym{pr[0], 257}, vC09Sym{pr[1], 257}
+		} else {
+			pr := h.pool.collide[r.Intn(len(h.pool.collide))] // tag(n) == tag(kk)
+			kk, n = vC09Sym{pr[0], 257}, vC09Sym{pr[1], 257}
+			if r.Intn(2) == 0 {
+				kk, n = n, kk
+			}
+		}
+		b := h.fresh(&next)
+		cfg := []vC09Sym{kk, b}
+		h.pub = []vC09Sym{kk, b}
+		h.start(cfg)
+		h.run(h.honest(), vC09Faults{})
+		when := r.Intn(3) // 0: n appears before the revocation, 1: together with it, 2: after it
+		if when == 0 {
+			h.publish(n)
+			h.run(h.honest(), h.pickFaults())
+		}
+		h.revoke(kk)
+		if when == 1 {
+			h.publish(n)
+		}
+		fl := vC09Faults{twrite: r.Intn(3) != 0, swrite: r.Intn(3) == 0}
+		h.run(h.honest(), fl)
+		if r.Intn(2) == 0 {
+			h.sticky, h.stickyLeft = fl, 1+r.Intn(2)
+		}
+		if when == 2 {
+			h.publish(n)
+		}
+		if r.Intn(2) == 0 {
+			h.unpublish(vC09Rev(kk))
+		}
+		for i := 0; i < 1+r.Intn(3); i++ {
+			h.run(h.honest(), h.pickFaults())
+			h.maybeCrash(&next)
+			if r.Intn(3) == 0 {
+				h.advance(h.pickAdvance())
+			}
+		}
+		h.restart(cfg)
+		h.run(h.honest(), vC09Faults{})
+		if r.Intn(2) == 0 {
+			h.unpublish(n)
+			h.advance(h.pickAdvance())
+			h.run(h.honest(), vC09Faults{})
+			h.restart(cfg)
+			h.run(h.honest(), vC09Faults{})
+		}
+
 	case "revcol":
 		// a key whose tag equals the tag of another anchor's revoked form (correspondence only)
 		pr := h.pool.revcol[r.Intn(len(h.pool.revcol))]
@@ -1564,6 +1710,7 @@ var vC09Kinds = []struct {
 	{"unreadable", 4, "", "hist"},
 	{"sreadloss", 4, "", "hist"},
 	{"cfgrev", 3, "", "hist"},
+	{"twinrev", 8, "", "hist"},
 }
 
 func TestVerifC09AutoTA(t *testing.T) {
